@@ -100,13 +100,7 @@ func (e *Engine) builtin(st *State, fr *Frame, b *ssa.Builtin, args []Val, c *ss
 		case *ArrayV:
 			return mkBV(64, bvLit(uint64(len(x.E)), 64), true)
 		case *MapV:
-			if x.Id == nil {
-				return mkBV(64, bvLit(0, 64), true)
-			}
-			e.C.DeclareFun("map_len", []Sort{"Obj"}, BV(64))
-			l := mkBV(64, "(map_len "+x.Id.T+")", true)
-			st.assume("(bvsge " + l.T + " #x0000000000000000)")
-			return l
+			return e.mapLen(st, x)
 		case *PtrV:
 			if x.C != nil {
 				if a, ok := e.load(st, x, nil).(*ArrayV); ok {
@@ -479,6 +473,9 @@ func (e *Engine) callContract(st *State, fr *Frame, fc *FuncContract, fn *ssa.Fu
 			e.trusted[shortKey(key)+"#"+en.Label+": "+en.Src] = true
 			e.mu.Unlock()
 		}
+		if usesCallLog(en.E) {
+			continue
+		}
 		st.assume(e.evalBool(env, en.E))
 	}
 	rec := &CallRec{Callee: key, Short: shortTarget(fc.Target), Params: map[string]Val{}, Results: map[string]Val{}, Args: args, Rets: rs, Pre: pre, Post: map[string]*Term{}}
@@ -671,6 +668,24 @@ func (e *Engine) havocLoop(st *State, fr *Frame, li *LoopInfo, spec *LoopSpec) {
 				} else if fa, ok := s.Addr.(*ssa.FieldAddr); ok {
 					if p, ok := fr.regs[fa].(*PtrV); ok && p.C != nil {
 						_ = p
+					}
+				}
+			}
+		}
+	}
+	// map iterators advanced in the loop: their visited sets; maps updated in the loop: their contents
+	for b := range li.Body {
+		for _, instr := range b.Instrs {
+			switch x := instr.(type) {
+			case *ssa.Next:
+				if it, ok := fr.regs[x.Iter].(*MapIter); ok {
+					vis := st.heap[it.Visited.ID].(*Term)
+					st.heap[it.Visited.ID] = mk(vis.S, e.C.Fresh("visited", vis.S))
+				}
+			case *ssa.MapUpdate:
+				if m, ok := fr.regs[x.Map].(*MapV); ok {
+					if ms := e.mapState(st, m); ms != nil {
+						st.heap[m.C.ID] = &MapState{Dom: mk(ms.Dom.S, e.C.Fresh("loop_dom", ms.Dom.S)), Val: mk(ms.Val.S, e.C.Fresh("loop_val", ms.Val.S))}
 					}
 				}
 			}
